@@ -11,7 +11,11 @@ from accelforge.frontend._workload_isl._symbolic import (
     PartiallyRelevant,
 )
 
-from accelforge.util._sympy.broadcast_max import max_nonzero, min_nonzero
+from accelforge.util._sympy.broadcast_max import (
+    max_nonzero,
+    min_nonzero,
+    min_take_zero,
+)
 
 from ._common import AnalysisInfo
 from ._stats import NetworkStats, SymbolicAnalysisOutput
@@ -114,7 +118,8 @@ class MeshTopologyModel(TopologyModel):
             # However, the accesses now come from different physical memories
             total_cost = multicast_cost(shape_repeats, last_fanout) * volume
             max_hops = shape_repeats * last_fanout
-            max_traffic = volume
+            # A single destination sits at the source: no link carries anything
+            max_traffic = min_take_zero(shape_repeats - 1, 1) * volume
         elif isinstance(relevancy, Relevant):
             # If distributed, then we bind data as locally as possible in the
             # physical buffers
@@ -203,8 +208,8 @@ class AllToAllTopologyModel(TopologyModel):
             max_hops = hops
             if isinstance(relevancy, Irrelevant):
                 # Multicast: the switch replicates, so each link carries the
-                # value at most once.
-                max_traffic = volume
+                # value at most once (and not at all if there is no destination).
+                max_traffic = min_take_zero(n_dsts, 1) * volume
             else:
                 # Unicast: the source's uplink to the switch carries all n - 1
                 # distinct messages, making it the most congested link.
